@@ -1,6 +1,8 @@
 package mon
 
 import (
+	"strings"
+
 	"verif/harness/gen"
 	"verif/harness/ref"
 )
@@ -39,10 +41,16 @@ func IsNontrivialOutcome(m ref.Outcome) bool {
 // rule prefix+"/model".  It returns the model outcome and the Search outcome.
 func (c *Ctx) CheckModel(prefix, text string, doc ref.V, goDoc any, opts CheckOpts) (ref.Outcome, LibOut) {
 	m := ref.Search(text, doc)
-	l := c.LibSearch(text, goDoc)
 	if m.Unspec {
 		c.Count("abstained", 1)
+		if strings.Contains(m.Why, "width beyond the model's bound") {
+			// a huge pad width legitimately drives the result size (see the
+			// known finding on pad widths in C03); do not execute it here
+			c.Count("skipped_huge_pad", 1)
+			return m, LibOut{}
+		}
 	}
+	l := c.LibSearch(text, goDoc)
 	judged, ok, why := Agree(m, l)
 	if judged && !ok {
 		rule := prefix + "/model"
